@@ -305,10 +305,14 @@ def stepSess (retries maxb nsvc blocks toks ops : String) : String :=
 
 inductive CEntry where
   | absent
-  | pending (result : Entry) (reqs : List Nat) (waiting : List Nat)   -- reqs: requests not yet released (head is blocked in the stub)
+  /-- fetch started with the locator of block `fb`; `reqs`: requests not yet released (the head is
+  blocked in the stub); `waiting`: readers parked on it -/
+  | pending (fb : Nat) (result : Entry) (reqs : List Nat) (waiting : List Nat)
   | done (e : Entry)
 deriving Inhabited
 
+/-- The cache is keyed by the first 32 characters of the locator: entries are indexed by the first
+block of the case that has the same key. -/
 structure Conc where
   blks : Array Blk
   tries : Nat
@@ -317,16 +321,24 @@ structure Conc where
   nreaders : Nat := 0
   log : List (Nat × Nat) := []
 
+def canon (blks : Array Blk) (b : Nat) : Nat :=
+  match blks[b]? with
+  | none => b
+  | some blk => ((List.range blks.size).find? (fun i => match blks[i]? with
+      | some x => x.loc.take 32 == blk.loc.take 32
+      | none => false)).getD b
+
 def showRead (e : Entry) : String :=
   let (d, err) := readAtEntry e 0 65536
   s!"{hexB d}:{optErr err}"
 
-def concFinish (st : Conc) (b : Nat) (e : Entry) (waiting : List Nat) : Conc :=
-  { st with ents := st.ents.set! b (.done e),
+def concFinish (st : Conc) (k : Nat) (e : Entry) (waiting : List Nat) : Conc :=
+  { st with ents := st.ents.set! k (.done e),
             results := st.results ++ waiting.map (fun r => (r, showRead e)) }
 
 def concStart (st : Conc) (b : Nat) : Option Conc :=
-  match st.blks[b]?, st.ents[b]? with
+  let k := canon st.blks b
+  match st.blks[b]?, st.ents[k]? with
   | some blk, some ent =>
     let r := st.nreaders
     let st := { st with nreaders := r + 1 }
@@ -334,34 +346,38 @@ def concStart (st : Conc) (b : Nat) : Option Conc :=
       let (e, g) := fetch md5hex id blk.loc st.tries blk.order { scripts := blk.scripts }
       let st := { st with blks := st.blks.set! b ({ blk with scripts := g.scripts } : Blk) }
       match g.log with
-      | [] => concFinish st b e [r]
-      | s :: _ => { st with ents := st.ents.set! b (.pending e g.log [r]), log := st.log ++ [(b, s)] }
+      | [] => concFinish st k e [r]
+      | s :: _ => { st with ents := st.ents.set! k (.pending b e g.log [r]), log := st.log ++ [(b, s)] }
     match ent with
     | .absent => some startFetch
     | .done e => if e.err.isNone then some { st with results := st.results ++ [(r, showRead e)] } else some startFetch
-    | .pending e reqs w => some { st with ents := st.ents.set! b (.pending e reqs (w ++ [r])) }
+    | .pending fb e reqs w => some { st with ents := st.ents.set! k (.pending fb e reqs (w ++ [r])) }
   | _, _ => none
 
-def concRelease (st : Conc) (b : Nat) : Option Conc :=
-  match st.ents[b]? with
-  | some (.pending e (_ :: rest) w) =>
-    match rest with
-    | [] => some (concFinish st b e w)
-    | s :: _ => some { st with ents := st.ents.set! b (.pending e rest w), log := st.log ++ [(b, s)] }
-  | some _ => some st
-  | none => none
+/-- release the blocked request of the fetch that was started with the locator of block `b` -/
+def concRelease (st : Conc) (b : Nat) : Conc :=
+  let k? := (List.range st.ents.size).find? (fun k => match (st.ents[k]? : Option CEntry) with
+    | some (CEntry.pending fb _ _ _) => fb == b
+    | _ => false)
+  match k? with
+  | none => st
+  | some k =>
+    match (st.ents[k]? : Option CEntry) with
+    | some (CEntry.pending fb e (_ :: rest) w) =>
+      match rest with
+      | [] => concFinish st k e w
+      | s :: _ => { st with ents := st.ents.set! k (.pending fb e rest w), log := st.log ++ [(fb, s)] }
+    | _ => st
 
 def concDrain (st : Conc) : Nat → Conc
   | 0 => st
   | fuel + 1 =>
-    let idx := (List.range st.ents.size).find? (fun b => match st.ents[b]? with
-      | some (.pending _ _ _) => true
-      | _ => false)
-    match idx with
-    | none => st
-    | some b => match concRelease st b with
-      | some st' => concDrain st' fuel
-      | none => st
+    let fbs := st.ents.toList.filterMap (fun e => match e with
+      | .pending fb _ _ _ => some fb
+      | _ => none)
+    match fbs with
+    | [] => st
+    | f :: rest => concDrain (concRelease st (rest.foldl min f)) fuel
 
 def stepConc (retries nsvc blocks sched : String) : String :=
   match parseNat? retries, countUuids nsvc with
@@ -379,13 +395,13 @@ def stepConc (retries nsvc blocks sched : String) : String :=
           | none => none
           | some b =>
             if s.startsWith "s" then concStart st b
-            else if s.startsWith "f" then (if b < st.ents.size then concRelease st b else none)
+            else if s.startsWith "f" then (if b < st.ents.size then some (concRelease st b) else none)
             else none) (some st0)
       match res with
       | none => "bad-op"
       | some st =>
         let total := st.log.length + (st.ents.toList.map (fun e => match e with
-          | .pending _ reqs _ => reqs.length
+          | .pending _ _ reqs _ => reqs.length
           | _ => 0)).sum
         let st := concDrain st (total + 1)
         let rs := (List.range st.nreaders).map (fun r => match st.results.find? (fun p => p.1 == r) with
